@@ -350,6 +350,33 @@ def input_len_fact(facts):
     return out
 
 
+CALLERS = {}
+
+
+def family_fn(fn):
+    """the public entry point a private helper belongs to: a function whose only callers (in the crate) are
+    in the documented-rejection families inherits their documentation (e.g. a shared merge helper of + and −)"""
+    base = fn.split('::{closure')[0]
+    seen = set()
+    cur = {base}
+    for _ in range(4):
+        if all(c.endswith(EMPTY_OK_SUFFIX) or c in DOC_MIN for c in cur):
+            return sorted(cur)
+        nxt = set()
+        for c in cur:
+            if c.endswith(EMPTY_OK_SUFFIX) or c in DOC_MIN:
+                nxt.add(c)
+                continue
+            cs = CALLERS.get(c)
+            if not cs:
+                return [base]
+            nxt |= {x.split('::{closure')[0] for x in cs}
+        if nxt == cur:
+            break
+        cur = nxt
+    return [base]
+
+
 def classify(it, s, invariants):
     """-> (class, explanation) or (None, reason)"""
     cond = s['cond']
@@ -357,6 +384,9 @@ def classify(it, s, invariants):
     for lid in s['loops']:
         facts |= set(invariants.get(lid, []))
     fn = s['fn']
+    fam = family_fn(fn)
+    if len(fam) >= 1 and all(x.endswith(('>::add', '>::sub')) for x in fam):
+        fn = fam[0]
     kind = s['kind']
     if cond == TRUE:
         return 'CONST', 'condition folds to true'
@@ -397,6 +427,7 @@ def classify(it, s, invariants):
 
 
 def run_all(cx):
+    CALLERS.clear()
     """analyse every hand-written function (T unbound); returns (sites, entered, problems, per-fn interps)"""
     sites = []
     entered = set()
@@ -429,6 +460,8 @@ def run_all(cx):
         for s in it.sites:
             sites.append((it, s))
         entered |= it.entered
+        for caller, callee, line in it.trace_calls:
+            CALLERS.setdefault(callee, set()).add(caller)
     # a body that cannot be analysed on its own (e.g. const-generic helper) but was analysed inside a caller is covered
     problems = [(f, why) for f, why in problems if f['path'] not in entered]
     return sites, entered, problems, invariants
@@ -438,6 +471,28 @@ def extra_closure_steps(cx, f, it, ret, st, args, problems):
     """closures returned lazily (never called inside their parent) are stepped once on symbolic inputs.
     By-value scalar captures are the closure's state across calls: candidate invariants `cap < len(S)` are kept
     when they hold for the initial capture and are preserved by one step (Houdini), and are then assumed."""
+    if isinstance(ret, Stream) and ret.kind == 'scan':
+        # lazily returned scan: step its closure once on a havoced state
+        state_cell, cell = ret.parts[1], ret.parts[2]
+        try:
+            clos = it.read(st, cell.root, cell.path)
+            cf = cx.facts.fn(clos.path)
+            from ..interp import State
+            st2 = State(dict(st.store), (), frozenset(st.facts))
+
+            def hv2(v, name):
+                if isinstance(v, tuple):
+                    return sym(name)
+                if isinstance(v, Struct):
+                    return Struct(v.path, tuple(hv2(x, '%s.%d' % (name, i)) for i, x in enumerate(v.fields)), v.tyargs)
+                return v
+            it.write(st2, state_cell.root, state_cell.path, hv2(it.read(st2, state_cell.root, state_cell.path), 'scanstate'))
+            body = cf['body']
+            cargs = [state_cell] + [it.materialize(body['locals'][i]['ty'], 'carg%d' % i, st2, {}) for i in range(3, body['arg_count'] + 1)]
+            it.call_closure(CallCtx(it, None, st2, None, [], None, None), cell, cargs)
+        except (Unsupported, Diverges) as e:
+            problems.append((f, 'lazily returned scan closure could not be stepped: %s' % e))
+        return
     if not isinstance(ret, Stream) or ret.kind != 'map':
         return
     cell = ret.parts[1]
